@@ -13,11 +13,13 @@ PROP = 'C08'
 MODEL_OPS = 'ConvDirM.conv_dir1_m / conv_dir2_m -> FitModel.fit2_pkg / fit3_pkg -> rank_m -> FTable.filter_table_m (composition)'
 RULE = ('packages with 2-8 models, 1-4 apertures, 3 filters, permuted parameter table, both formats; photometry synthesised from the implementation\'s own convolved fluxes '
         'of model m at a planted A_V inside the range and a planted scale (aperture-independent) or grid distance (aperture-dependent), as flag-1 data with relative error '
-        '1e-4..0.5 or flag-4 data; convolve_model_dir, fit() to a file, write_parameters; first record and first listing row compared with the planted truth and the model. '
+        '1e-4..0.5 or flag-4 data, preceded in the same data file by 0-2 other sources (other planted models and A_V); convolve_model_dir, fit() to a file, write_parameters; first record and first listing row compared with the planted truth and the model. '
         'non-trivial = the runner-up has chi2 > 1e-6 (non-degenerate package) and the regression is well conditioned.')
 EXHAUSTIVE = {'quick': False, 'thorough': False}
-ASSUMPTIONS = ['cube packages are fitted from float32 memory maps by fit(): chi2 tolerance 1e-6 + 3 w (1e-6)^2, A_V / scale tolerance 2e-6 x condition number',
-               '"~" is quantified: A_V and scale within 1e-6 x condition number of the planted values, the scale shifted by (sigma/F)^2/(4 ln10) for flag-1 data (C08_bias), chi2 <= 1e-6',
+ASSUMPTIONS = ['cube packages are fitted by fit() from float32 memory maps whose log10 is taken in float32: one model log flux is off by up to eps = 4 ulp32(|log10 F|) + 1e-7 (per-file packages: 1e-12)',
+               '"~" is quantified by error propagation: |A_V - A_V0| <= 4 eps x (sum of |row| of (A^T A)^-1 A^T) + 1e-9 (1 + A_V0), same for the scale, chi2 <= 1e-6 + 3 w (2 eps)^2',
+               'flag-1 data are read by the fitter as log10 F - (sigma/F)^2/(2 ln10) (C03): aperture-independent cases leave it in and expect the scale shifted by (sigma/F)^2/(4 ln10) (C08_bias); distance-dependent cases plant the flux whose fitter-side log flux is the model\'s',
+               'planted A_V0 k(lambda) that under/overflows float64 photometry is skipped (counted)',
                'packages whose runner-up also has chi2 <= 1e-6 are degenerate (outside the quantifier) and skipped (counted)']
 
 
@@ -44,6 +46,9 @@ def generate(tier, seed):
             c['drange'] = [dmin, dmin * rng.logdyadic(2.0, 30.0, 6)]
             c['logd_step'] = rng.choice([0.05, 0.1, 0.25])
             c['dindex'] = rng.random()
+        # other sources fitted before the planted one in the same fit() call (the planted source's result must not depend on them)
+        c['decoys'] = [dict(model=rng.choice(pkg['names']), av0=rng.dyadic(0.0, 20.0, 8), sc0=rng.dyadic(-2.0, 2.0, 10), dindex=rng.random())
+                       for _ in range(rng.choice([0, 1, 2]))]
         cases.append(c)
     return cases
 
@@ -63,42 +68,52 @@ def impl(case):
         ext = fitcase.make_extinction(case['ext'])
         wavs = np.array([conv[n]['filtwav'] for n in names]) * u.micron
         ks = np.asarray(ext.get_av(wavs))
-        mi = conv[names[0]]['names'].index(case['planted'])
+        d0s = []
+
+        def synth(label, planted, av0, sc0, dindex):
+            mi = conv[names[0]]['names'].index(planted)
+            if case['mode'] == '2d':
+                logf = np.array([np.log10(conv[n]['flux'][mi][0]) for n in names]) + av0 * ks - 2.0 * sc0
+                d0s.append(None)
+            else:
+                d0r, d1r = case['drange']
+                ng = int(np.ceil(1 + (np.log10(d1r) - np.log10(d0r)) / case['logd_step']))
+                grid = np.logspace(np.log10(d0r), np.log10(d1r), ng)
+                d0 = float(grid[min(int(dindex * ng), ng - 1)])
+                d0s.append(d0)
+                fl = []
+                for j, n in enumerate(names):
+                    aps = np.array(conv[n]['apertures'])
+                    ap = min(theta[j] * d0 * 1000.0, aps.max())
+                    fl.append(np.interp(ap, aps, conv[n]['flux'][mi]) / d0 ** 2)
+                logf = np.log10(np.array(fl)) + av0 * ks
+            if case['flag'] == 1:
+                # the fitter reads linear (F, sigma) as the log-normal mean log10 F - (sigma/F)^2 / (2 ln 10) (C03); with a fixed distance grid that
+                # shift cannot be absorbed by the scale, so distance-dependent cases plant the flux whose fitter-side log flux is the model's
+                flux = 10.0 ** (logf + (0.5 * case['rel'] ** 2 / np.log(10.) if case['mode'] == '3d' else 0.0))
+                return [label, '0.0', '0.0', '1', '1', '1'] + [repr(float(x)) for pair in zip(flux, flux * case['rel']) for x in pair]
+            return [label, '0.0', '0.0', '4', '4', '4'] + [repr(float(x)) for pair in zip(logf, [case['rel'] / np.log(10.)] * 3) for x in pair]
         if case['mode'] == '2d':
-            logf = np.array([np.log10(conv[n]['flux'][mi][0]) for n in names]) + case['av0'] * ks - 2.0 * case['sc0']
             drange = np.array([1.0, 2.0]) * u.kpc
             theta = [3.0] * 3
-            d0 = None
         else:
-            d0r, d1r = case['drange']
-            ng = int(np.ceil(1 + (np.log10(d1r) - np.log10(d0r)) / case['logd_step']))
-            grid = np.logspace(np.log10(d0r), np.log10(d1r), ng)
-            d0 = float(grid[min(int(case['dindex'] * ng), ng - 1)])
             theta = case['theta']
-            fl = []
-            for j, n in enumerate(names):
-                aps = np.array(conv[n]['apertures'])
-                ap = min(theta[j] * d0 * 1000.0, aps.max())
-                fl.append(np.interp(ap, aps, conv[n]['flux'][mi]) / d0 ** 2)
-            logf = np.log10(np.array(fl)) + case['av0'] * ks
             drange = np.array(case['drange']) * u.kpc
-        if case['flag'] == 1:
-            flux = 10.0 ** logf
-            cols = ['src_plant', '0.0', '0.0', '1', '1', '1'] + [repr(float(x)) for pair in zip(flux, flux * case['rel']) for x in pair]
-        else:
-            cols = ['src_plant', '0.0', '0.0', '4', '4', '4'] + [repr(float(x)) for pair in zip(logf, [case['rel'] / np.log(10.)] * 3) for x in pair]
+        decoys = [synth('decoy_%d' % i, dc['model'], dc['av0'], dc['sc0'], dc['dindex']) for i, dc in enumerate(case.get('decoys', []))]
+        cols = synth('src_plant', case['planted'], case['av0'], case.get('sc0'), case.get('dindex'))
+        d0 = d0s[-1]
         data = os.path.join(d, 'data.txt')
-        open(data, 'w').write(' '.join(cols) + '\n')
+        open(data, 'w').write(''.join(' '.join(c) + '\n' for c in decoys + [cols]))
         out = os.path.join(d, 'out.fitinfo')
         fit(data, names, np.array(theta) * u.arcsec, d, out, n_data_min=1, extinction_law=ext, av_range=tuple(case['av_range']), distance_range=drange,
             output_format=('A', 0.), output_convolved=False)
         fin = FitInfoFile(out, 'r')
-        info = next(iter(fin))
+        info = [i for i in fin if i.source.name == 'src_plant'][0]
         fin.close()
         rec = fitcase.info_out(info)
         txt = os.path.join(d, 'pars.txt')
         write_parameters(out, txt, select_format=('N', 1))
-        lines = [l.split() for l in open(txt).read().split('\n')[3:] if l.strip()]
+        lines = [l.split() for l in open(txt).read().split('\n')[3:] if l.strip()][2 * len(decoys):]
     return dict(rec=dict(model_name=rec['model_name'][:3], av=rec['av'][:3], sc=rec['sc'][:3], chi2=rec['chi2'][:3]), listing=lines[:2], d0=d0, ks=[float(x) for x in ks],
                 data=cols, filtwav=[conv[n]['filtwav'] for n in names], conv={n: conv[n] for n in names})
 
@@ -157,14 +172,31 @@ def judge(case, im, mo):
         return dict(disagree=[], fail=[], nontrivial=False, tags=tags + ['ill-conditioned-skipped'])
     if len(rec['chi2']) > 1 and rec['chi2'][1] <= 1e-6:
         return dict(disagree=[], fail=[], nontrivial=False, tags=tags + ['degenerate-skipped'])
+    data = [float(x) for x in im['data'][6:]]
+    if any(not math.isfinite(x) for x in data) or (case['flag'] == 1 and any(x <= 1e-300 or x >= 1e300 for x in data)):
+        return dict(disagree=[], fail=[], nontrivial=False, tags=tags + ['photometry-under/overflow-skipped'])    # A_V0 k(lambda) beyond the float64 range: no such photometry exists
     bias = 0.0
     if case['flag'] == 1 and case['mode'] == '2d':
         bias = 0.25 * case['rel'] ** 2 / math.log(10.0)
-    tol = 1e-7 * max(cond, 1.0) if case['mode'] == '2d' else 1e-6
-    f32 = case['fmt'] == 'v2'      # fit() memory-maps cube packages: model fluxes are stored as float32
-    if f32:
-        tol = max(tol, 2e-6 * max(cond, 1.0))
+    f32 = case['fmt'] == 'v2'      # fit() memory-maps cube packages: model fluxes are stored as float32 and their log10 is taken in float32
+    logs = [abs(math.log10(x)) for x in data[0::2]] if case['flag'] == 1 else [abs(x) for x in data[0::2]]
+    ulp32 = 2.0 ** (math.floor(math.log2(max(max(logs), 1.0))) - 23)
+    eps = (4 * ulp32 + 1e-7) if f32 else 1e-12          # bound on the error of one model log flux
+    ks = im['ks']
+    if case['mode'] == '2d':      # sensitivity of the two fitted parameters to a perturbation of the three log fluxes: rows of (A^T A)^-1 A^T, A = [k_i, -2]
+        m11, m12, m22 = sum(k * k for k in ks), sum(-2 * k for k in ks), 4.0 * len(ks)
+        det = m11 * m22 - m12 * m12
+        amp_av = sum(abs((m22 * k - m12 * -2) / det) for k in ks)
+        amp_sc = sum(abs((-m12 * k + m11 * -2) / det) for k in ks)
+    else:
+        amp_av = sum(abs(k) for k in ks) / sum(k * k for k in ks)
+        amp_sc = 0.0
+    tol_av = 4 * eps * amp_av + 1e-9 * (1 + case['av0'])
+    tol_sc = 4 * eps * amp_sc + 1e-9
+    if tol_av > 0.5 or tol_sc > 0.05:
+        return dict(disagree=[], fail=[], nontrivial=False, tags=tags + ['ill-conditioned-skipped'])
     wmax = (math.log(10.0) / case['rel']) ** 2
+    chi_tol = 1e-6 + 3 * wmax * (2 * eps) ** 2
     want_sc = (case['sc0'] + bias) if case['mode'] == '2d' else math.log10(im['d0'])
     # ---- the model's own first rank
     res = m[2] if case['mode'] == '2d' else (m[2][0] if m[2] else None)
@@ -178,20 +210,17 @@ def judge(case, im, mo):
             disagree.append('model ranks %s first, implementation %s' % (mname, rec['model_name'][0]))
         else:
             r = res[best]
-            if not close(rec['av'][0], r[0], tol, tol) or not close(rec['sc'][0], r[1], tol, tol):
+            if abs(rec['av'][0] - float(r[0])) > tol_av or abs(rec['sc'][0] - float(r[1])) > tol_sc:
                 disagree.append('first record (A_V, scale) = (%r, %r), model (%r, %r)' % (rec['av'][0], rec['sc'][0], float(r[0]), float(r[1])))
     # ---- property
     if rec['model_name'][0] != case['planted']:
         fail.append('first: model %s is ranked first, %s was planted' % (rec['model_name'][0], case['planted']))
     else:
-        flag3d_bias = case['mode'] == '3d' and case['flag'] == 1
-        chi_tol = (1e-6 + (3 * wmax * 1e-12 if f32 else 0.0)) if not flag3d_bias else 3 * (0.5 * case['rel'] ** 2 / math.log(10.0)) ** 2 / (case['rel'] / math.log(10.0)) ** 2 + 1e-6 + (3 * wmax * 1e-12 if f32 else 0.0)
         if rec['chi2'][0] > chi_tol:
             fail.append('chi2: planted model has chi2 %r' % rec['chi2'][0])
-        av_tol = tol * (1 + case['av0']) if not flag3d_bias else 10.0    # in 3-D the flag-1 bias is partly absorbed by A_V
-        if abs(rec['av'][0] - case['av0']) > av_tol:
+        if abs(rec['av'][0] - case['av0']) > tol_av:
             fail.append('av: A_V %r recovered, %r planted' % (rec['av'][0], case['av0']))
-        if abs(rec['sc'][0] - want_sc) > (tol * (1 + abs(want_sc)) if case['mode'] == '2d' else 1e-9):
+        if abs(rec['sc'][0] - want_sc) > tol_sc:
             fail.append('scale: scale %r recovered, %r planted%s' % (rec['sc'][0], want_sc, ' (incl. the log-normal bias)' if bias else ''))
         lst = im['listing']
         if len(lst) < 2 or lst[1][1] != case['planted'] or abs(float(lst[1][5]) - pkg['par1'][case['planted']]) > 6e-4 * abs(pkg['par1'][case['planted']]) + 1e-12:
